@@ -4,3 +4,4 @@ INVARIANT SameEnd
 INVARIANT Pure
 INVARIANT SameValues
 CHECK_DEADLOCK FALSE
+INVARIANT RefAgrees
